@@ -16,9 +16,9 @@ from .common import chunks
 
 ID = "C09"
 RULE = (
-    "H: 10 queries mixing cacheable sub-expressions (root- and context-rooted queries, constants, functions of them, nested "
+    "H: 12 queries mixing cacheable sub-expressions (root- and context-rooted queries, constants, functions of them, nested "
     "filters inside root paths) with per-node ones (current node, current key) x 2 documents that differ exactly in the cached "
-    "part x 2 filter contexts x {caching on, off}: every history of depth<=4 with caching on (5 for one query; 3 with caching off; thorough 6, and 7 for 3 queries) over the letters "
+    "part x 2 filter contexts x {caching on, off}: every history of depth<=4 with caching on (3 with caching off; all depth-5 histories of one query chosen by VERIF_SEED; thorough 6, and 7 for 3 queries) over the letters "
     "{open iterator on doc i, advance iterator j (<=3 live), findall(doc i), findall(doc i) under the other filter context, swap the two documents' contents in place, recompile, findall in the other caching mode}; every "
     "observation equals a fresh compile evaluated once on a deep copy in a fresh non-caching environment; documents, filter "
     "contexts and the compiled query's public surface unchanged; TASK: 6 coroutine harnesses x {caching on, off}, <=1 (3) "
@@ -32,14 +32,16 @@ ASSUMPTIONS = [
     "only by the free-running sanity pass (no memory-model effects exist under the GIL)",
 ]
 
-D1 = {"k": 1, "key": "p", "l": [1, 2], "a": [{"x": 1, "n": 2}, {"x": 2, "n": 3}, {"x": 3, "n": 1}], "o": {"p": 1, "q": 2, "r": 1}}
-D2 = {"k": 2, "key": "q", "l": [2], "a": [{"x": 1, "n": 2}, {"x": 2, "n": 3}, {"x": 3, "n": 1}], "o": {"p": 1, "q": 2, "r": 1}}
+D1 = {"k": 1, "key": "p", "l": [1, 2], "a": [{"x": 1, "n": 2, "t": [7]}, {"x": 2, "n": 3, "t": []}, {"x": 3, "n": 1}], "o": {"p": 1, "q": 2, "r": 1}}
+D2 = {"k": 2, "key": "q", "l": [2], "a": [{"x": 1, "n": 2, "t": [7]}, {"x": 2, "n": 3, "t": []}, {"x": 3, "n": 1}], "o": {"p": 1, "q": 2, "r": 1}}
 DOCS = [D1, D2]
 CTX = [{"lim": 1}, {"lim": 2}]
 QUERIES = [
     "$.a[?@.x == $.k]", "$.a[?@.x > _.lim]", "$.a[?count($.a.*) == @.n]", "$.o[?# == $.key]", "$.a[?@.x in $.l]",
     "$.a[?$.l[?@ == $.k]]", "$.a[?1 == 1 && @.x != $.k]", "$.a[?length($.l) == @.n]", "$..[?@.x == $.k || @ == $.k]",
     "$.a[?@.x == $.k] | $.l[?@ == _.lim]",
+    # a per-node path whose nested filter is itself cacheable (references only $ / constants)
+    "$.a[?@.t[?$.k == 1]]", "$.a[?count(@.t[?$.k == 1 || 1 == 1]) == @.x]",
 ]
 PROBE = {"k": 3, "key": "r", "l": [3, 3, 3], "a": [{"x": 3, "n": 3}, {"x": 1, "n": 1}], "o": {"r": 5}}
 
@@ -49,7 +51,7 @@ def selftest():
 
 
 def bounds(tier, seed):
-    return {"queries": len(QUERIES), "history_depth": "caching on: 4 (5 for one query); caching off: 3; one depth-6 block by VERIF_SEED" if tier == "quick" else "6; 7 for 3 queries", "max_live_iterators": 3,
+    return {"queries": len(QUERIES), "history_depth": "caching on: 4; caching off: 3; all depth-5 histories of one query chosen by VERIF_SEED" if tier == "quick" else "6; 7 for 3 queries", "max_live_iterators": 3,
             "task_preemptions": 1 if tier == "quick" else 3, "thread_preemptions": 1 if tier == "quick" else 2}
 
 
@@ -72,15 +74,17 @@ def plan(tier, seed):
     for qi in range(len(QUERIES)):
         for caching in (True, False):
             if tier == "quick":
-                depth = (5 if qi == 1 else 4) if caching else 3
+                depth = 4 if caching else 3
             else:
                 depth = 6
             for first in range(N_FIRST):
                 shards.append(("H", qi, caching, first, depth))
     if tier == "quick":
+        # one complete deeper block chosen by the seed: all depth-5 histories of one query starting with one letter pair
         qi = seed % len(QUERIES)
         for first in range(N_FIRST):
-            shards.append(("H6", qi, True, first, (seed // len(QUERIES)) % N_FIRST, 6))
+            for second in range(11):
+                shards.append(("H6", qi, True, first, second, 5))
     else:
         for qi in (0, 5, 9):
             for first in range(N_FIRST):
@@ -92,6 +96,9 @@ def plan(tier, seed):
     for hi in range(len(thread_harnesses())):
         shards.append(("THR", hi, 1 if tier == "quick" else 2))
     shards.append(("FREE", 200 if tier == "quick" else 2000))
+    # long sequential shards first, so that they do not become the tail of the run
+    order = {"THR": 0, "FREE": 1, "TASK": 2}
+    shards.sort(key=lambda s: order.get(s[0], 3))
     return shards
 
 
